@@ -298,3 +298,26 @@ def stores_to(fn: ast.FunctionDef, name: str):
         if isinstance(n, ast.Name) and n.id == name and isinstance(n.ctx, (ast.Store, ast.Del)):
             out.append(n)
     return out
+
+
+def validation_functions(prog, modname, checker_module="ufl.algorithms.check_arities"):
+    """The validation functions of a module, by shape rather than by name: module-level functions that return no value and
+    either raise themselves or call into the public checker module.  -> {name: (FuncInfo, calls_checker: bool)}"""
+    from .model import FuncInfo
+
+    mod = prog.module(modname)
+    out = {}
+    for fi in mod.functions.values():
+        returns_value = any(isinstance(n, ast.Return) and n.value is not None and not (isinstance(n.value, ast.Constant) and n.value.value is None) for n in ast.walk(fi.node))
+        if returns_value:
+            continue
+        raises = any(isinstance(n, ast.Raise) for n in ast.walk(fi.node))
+        calls_checker = False
+        for n in ast.walk(fi.node):
+            if isinstance(n, ast.Call):
+                r = prog.resolve_expr(mod, n.func)
+                if isinstance(r, FuncInfo) and r.module.name == checker_module:
+                    calls_checker = True
+        if raises or calls_checker:
+            out[fi.name] = (fi, calls_checker)
+    return out
